@@ -53,20 +53,47 @@ fn build(variant: Variant, mat: &[f64], vars: &[usize], nvars: usize, loops: boo
 }
 
 /// Run `steps` time steps in a helper thread; Err on panic or hang.
-fn sample(variant: Variant, mat: &[f64], vars: &[usize], nvars: usize, loops: bool, heatbath: bool, steps: usize) -> Result<(), String> {
+/// `company`: 0 = the interaction alone; 1 = constant single-site terms (and a constant two-site term) registered BEFORE it;
+/// 2 = the same terms registered AFTER it. The company makes cluster updates possible (a constant single-site term is a
+/// cluster edge) and puts constant multi-variable operators next to it, so that the sampler's use of the interaction's
+/// classification (constant / symmetric, accumulated over all registered terms in either order) is exercised too.
+fn sample(variant: Variant, mat: &[f64], vars: &[usize], nvars: usize, loops: bool, heatbath: bool, company: u8, steps: usize) -> Result<(), String> {
     let (tx, rx) = std::sync::mpsc::channel();
     let mat = mat.to_vec();
     let vars = vars.to_vec();
     std::thread::spawn(move || {
         let r = catch(|| {
-            if let Ok(Ok(mut q)) = build(variant, &mat, &vars, nvars, loops) {
+            let add_company = |q: &mut Q| {
+                for v in 0..nvars {
+                    q.make_interaction(vec![0.75; 4], vec![v]).unwrap();
+                }
+                if nvars >= 2 {
+                    q.make_interaction(vec![0.5; 16], vec![0, 1]).unwrap();
+                }
+            };
+            let mut q = Q::new_with_state(nvars, SplitMix64::new(7), vec![false; nvars], loops);
+            if company == 1 {
+                add_company(&mut q);
+            }
+            let r = match variant {
+                Variant::New => q.make_interaction(mat, vars),
+                Variant::NewOff => q.make_interaction_and_offset(mat, vars),
+                Variant::Diag => q.make_diagonal_interaction(mat, vars),
+                Variant::DiagOff => q.make_diagonal_interaction_and_offset(mat, vars),
+            };
+            if r.is_ok() {
+                if company == 2 {
+                    add_company(&mut q);
+                }
                 q.set_do_heatbath(heatbath);
-                // a transverse-like constant single-site term on var 0 so that cluster updates may run
                 for _ in 0..steps {
                     q.timestep(1.0);
                 }
                 for _ in 0..steps {
                     q.timestep(0.25);
+                }
+                for _ in 0..steps {
+                    q.timestep(2.0);
                 }
             }
         });
@@ -74,8 +101,8 @@ fn sample(variant: Variant, mat: &[f64], vars: &[usize], nvars: usize, loops: bo
     });
     match rx.recv_timeout(std::time::Duration::from_secs(20)) {
         Ok(Ok(())) => Ok(()),
-        Ok(Err(p)) => Err(format!("sampling panicked (loops={} heatbath={}): {}", loops, heatbath, p)),
-        Err(_) => Err(format!("sampling hung >20s (loops={} heatbath={})", loops, heatbath)),
+        Ok(Err(p)) => Err(format!("sampling panicked (loops={} heatbath={} company={}): {}", loops, heatbath, company, p)),
+        Err(_) => Err(format!("sampling hung >20s (loops={} heatbath={} company={})", loops, heatbath, company)),
     }
 }
 
@@ -230,8 +257,10 @@ fn run_case(variant: Variant, mat: &[f64], vars: &[usize], do_sample: bool) {
             if do_sample {
                 for loops in [false, true] {
                     for heatbath in [false, true] {
-                        if let Err(e) = sample(variant, mat, vars, nvars, loops, heatbath, 25) {
-                            fail(e);
+                        for company in [0u8, 1, 2] {
+                            if let Err(e) = sample(variant, mat, vars, nvars, loops, heatbath, company, 15) {
+                                fail(e);
+                            }
                         }
                     }
                 }
